@@ -152,7 +152,10 @@ def main(mod, tier):
     extra = collections.Counter()
     samples = []
     slowest = (0.0, None)
-    for i, (case, r) in enumerate(run_cases(mod, cases)):
+    extra_info = {}
+    caps_seen = []
+    stream = mod.explore(tier) if hasattr(mod, "explore") else run_cases(mod, cases)
+    for i, (case, r) in enumerate(stream):
         evals += int(r.get("evals", 1))
         nontrivial += int(r.get("nontrivial", 0))
         states += int(r.get("states", 0))
@@ -162,8 +165,12 @@ def main(mod, tier):
         extra.update(r.get("counters", {}))
         if r.get("wall", 0) > slowest[0]:
             slowest = (r["wall"], case)
-        if i in (0, len(cases) // 2, len(cases) - 1) and len(samples) < 3:
+        if (i in (0, len(cases) // 2, len(cases) - 1) or r.get("sample_me")) and len(samples) < 6:
             samples.append({"case": case, "sample": r.get("sample")})
+        for kk in ("depth_completed", "closed", "per_level"):
+            if kk in r:
+                extra_info.setdefault(kk, {})[r.get("label", str(i))] = r[kk]
+        caps_seen.extend(r.get("caps_hit", []))
         for f in r.get("findings", []):
             by_key.setdefault(f["key"], []).append((case, f))
 
@@ -228,7 +235,7 @@ def main(mod, tier):
         "known_finding_cases": sum(n for _, _, n in known_hits),
         "traces_validated_against_impl": evals,
         "fresh_process_replays": replays_verified,
-        "caps_hit": getattr(mod, "CAPS_HIT", []),
+        "caps_hit": list(getattr(mod, "CAPS_HIT", [])) + caps_seen,
         "slowest_case_s": round(slowest[0], 3),
         "nproc": env.NPROC,
     }
@@ -236,6 +243,9 @@ def main(mod, tier):
         cov["states"] = states
         cov["transitions"] = max(transitions, 1)
     cov.update({k: v for k, v in extra.items()})
+    cov.update(extra_info)
+    if caps_seen:
+        cov["exhaustive"] = False
     ev = {
         "property_id": prop, "tier": tier, "seed": env.SEED,
         "level": getattr(mod, "LEVEL", "model_checking"),
